@@ -43,12 +43,13 @@ const (
 	KTextOK
 	KTextErr
 	KUnencodableMap
+	KErrMarshaler // an error that is also a json.Marshaler (the "API problem" shape): its JSON form or its Error() text
 	KGroup
 	numKinds
 )
 
 var kindNames = [...]string{"string", "int64", "uint64", "float", "bool", "duration", "time", "error", "bytes", "map", "struct", "nilptr", "nil", "marshalOK", "marshalErr", "marshalGarbage",
-	"rawValid", "rawInvalid", "rawNil", "ansi", "textOK", "textErr", "unencodableMap", "group"}
+	"rawValid", "rawInvalid", "rawNil", "ansi", "textOK", "textErr", "unencodableMap", "errorAndMarshaler", "group"}
 
 func (k Kind) String() string { return kindNames[k] }
 
@@ -74,6 +75,12 @@ type okMarshaler struct{ raw string }
 func (m okMarshaler) MarshalJSON() ([]byte, error) { return []byte(m.raw), nil }
 
 type errMarshaler struct{ msg string }
+
+// errAndMarshaler is an error value that also knows its JSON form.
+type errAndMarshaler struct{ raw string }
+
+func (m errAndMarshaler) MarshalJSON() ([]byte, error) { return []byte(m.raw), nil }
+func (m errAndMarshaler) Error() string                { return "E:" + m.raw }
 
 func (m errMarshaler) MarshalJSON() ([]byte, error) { return nil, errors.New(m.msg) }
 
@@ -148,6 +155,8 @@ func (n Node) GoValue() any {
 		return okText{n.S}
 	case KTextErr:
 		return errText{n.S}
+	case KErrMarshaler:
+		return errAndMarshaler{n.S}
 	case KUnencodableMap:
 		return map[string]any{"f": func() {}}
 	}
@@ -368,7 +377,7 @@ type GenOpts struct {
 
 func genLeaf(o GenOpts) *rapid.Generator[Node] {
 	kinds := []Kind{KString, KString, KString, KInt64, KUint64, KFloat, KBool, KDuration, KTime, KError, KBytes, KMap, KStruct, KNilPtr, KNil, KMarshalOK, KMarshalErr, KMarshalGarbage,
-		KRawValid, KRawInvalid, KRawNil, KAnsi, KUnencodableMap}
+		KRawValid, KRawInvalid, KRawNil, KAnsi, KUnencodableMap, KErrMarshaler}
 	if o.TextKinds {
 		kinds = append(kinds, KTextOK, KTextErr, KTextOK)
 	}
@@ -397,7 +406,7 @@ func genLeaf(o GenOpts) *rapid.Generator[Node] {
 			n.I = rapid.OneOf(rapid.SampledFrom([]int64{0, 1, -1, int64(time.Second), int64(36 * time.Hour), math.MaxInt64, math.MinInt64}), rapid.Int64()).Draw(t, "d")
 		case KTime:
 			n.T = genTime().Draw(t, "t")
-		case KMarshalOK:
+		case KMarshalOK, KErrMarshaler:
 			n.S = rapid.SampledFrom([]string{`{"a":1}`, `[1, 2,   3]`, `"str"`, "{\n  \"pretty\": [\n    true\n  ]\n}", `null`, `12.50`, `{"a":{"b":{}}}`, `" "`, `{"dup":1,"dup":2}`, `{}`, `[]`}).Draw(t, "json")
 		case KMarshalGarbage:
 			n.S = rapid.SampledFrom([]string{`{`, `}`, ``, `{"a":}`, `nul`, `"unterminated`, "\x00", `{"a":1}}`, `1 2`, "\xff"}).Draw(t, "garbage")
